@@ -188,7 +188,9 @@ def classify_alias(case, obs):
 
 # ------------------------------------------------------------------ CLI: bad aliases are reported before any file is touched
 def gen_cli(rng, n, tier):
-    bad = [["S", "%S()"], ["A", "%B()"], ["Bad", "%Upper{"], ["U", "%NoSuchTag()"], ["Z", "%Count(step=0)"], ["P", "x|y"]]
+    bad = [["S", "%S()"], ["A", "%B()"], ["Bad", "%Upper{"], ["U", "%NoSuchTag()"], ["Z", "%Count(step=0)"], ["P", "x|y"],
+           # the mistake sits after a line break inside the alias pattern (the report must still be a template error)
+           ["NL", "a_\n%NoSuchTag()"], ["NL2", "x\n\n%Upper{"], ["NL3", "ok\n%Count(step=0)"]]
     for _ in range(n):
         a = rng.choice(bad)
         extra = [["B", "%A()"]] if a[0] == "A" else []
